@@ -19,6 +19,7 @@ type frame struct {
 	caller *frame
 	call   ssa.CallInstruction
 	depth  int
+	recv   ssa.Value // for a method used as a bound method value (x.m): the receiver it was bound to, in caller
 }
 
 func topFrame(fn *ssa.Function) *frame { return &frame{fn: fn} }
@@ -29,6 +30,9 @@ func (f *frame) inline(call ssa.CallInstruction, callee *ssa.Function) *frame {
 
 // actual returns the caller-side value bound to parameter p in this frame, if known.
 func (f *frame) actual(p *ssa.Parameter) (ssa.Value, *frame, bool) {
+	if f.recv != nil && f.caller != nil && len(f.fn.Params) > 0 && f.fn.Params[0] == p {
+		return f.recv, f.caller, true
+	}
 	if f.call == nil || f.caller == nil {
 		return nil, nil, false
 	}
@@ -462,7 +466,7 @@ func singleStore(al *ssa.Alloc) *ssa.Store {
 					found = r
 					n++
 				}
-				if r.Val == v {
+				if r.Val == v && !storedIntoReadOnlyWrapper(r) && !storedIntoReadOnlyField(r) {
 					n += 2 // the cell's address is stored somewhere (e.g. into a variadic pack handed to Scan): it may be written through it
 				}
 			case *ssa.MakeClosure:
@@ -494,11 +498,147 @@ func singleStore(al *ssa.Alloc) *ssa.Store {
 	return nil
 }
 
+// fieldPointerWritten is installed by the model: may a store happen through a pointer that was
+// loaded from struct field f, anywhere in the package?
+var fieldPointerWritten func(f *types.Var) bool
+
+// storedIntoReadOnlyField: the store puts a pointer into a struct field (of a command object
+// such as removal{ifCas: p}) and nothing in the package ever stores through a pointer loaded from
+// that field.
+func storedIntoReadOnlyField(st *ssa.Store) bool {
+	fa, ok := st.Addr.(*ssa.FieldAddr)
+	if !ok || fieldPointerWritten == nil {
+		return false
+	}
+	if _, isPtr := st.Val.Type().Underlying().(*types.Pointer); !isPtr {
+		return false
+	}
+	return !fieldPointerWritten(fieldOf(fa))
+}
+
+// storedIntoReadOnlyWrapper: the store puts a pointer into the single field of a local struct
+// literal (a wrapper such as casCheck{expected: &cas}) whose only use is to be passed BY VALUE to
+// package functions that merely read through that pointer.
+func storedIntoReadOnlyWrapper(st *ssa.Store) bool {
+	fa, ok := st.Addr.(*ssa.FieldAddr)
+	if !ok {
+		return false
+	}
+	w, ok := fa.X.(*ssa.Alloc)
+	if !ok || w.Referrers() == nil {
+		return false
+	}
+	pt, ok := w.Type().Underlying().(*types.Pointer)
+	if !ok {
+		return false
+	}
+	stT, ok := pt.Elem().Underlying().(*types.Struct)
+	if !ok || stT.NumFields() != 1 {
+		return false
+	}
+	for _, ref := range *w.Referrers() {
+		switch x := ref.(type) {
+		case *ssa.FieldAddr:
+			for _, r2 := range *x.Referrers() {
+				if s2, isSt := r2.(*ssa.Store); !isSt || s2.Addr != ssa.Value(x) {
+					return false
+				}
+			}
+		case *ssa.DebugRef:
+		case *ssa.UnOp:
+			if x.Referrers() == nil {
+				continue
+			}
+			for _, r2 := range *x.Referrers() {
+				call, isCall := r2.(ssa.CallInstruction)
+				if !isCall {
+					if _, isDbg := r2.(*ssa.DebugRef); isDbg {
+						continue
+					}
+					return false
+				}
+				callee := call.Common().StaticCallee()
+				if callee == nil || call.Common().IsInvoke() || len(callee.Blocks) == 0 {
+					return false
+				}
+				for i, a := range call.Common().Args {
+					if a == ssa.Value(x) && (i >= len(callee.Params) || structFieldPointerWritten(callee.Params[i])) {
+						return false
+					}
+				}
+			}
+		default:
+			return false
+		}
+	}
+	return true
+}
+
+// structFieldPointerWritten: p is a struct-valued parameter holding a pointer; may the callee
+// store through that pointer (or let it escape)?
+func structFieldPointerWritten(p *ssa.Parameter) bool {
+	if p.Referrers() == nil {
+		return false
+	}
+	for _, ref := range *p.Referrers() {
+		switch x := ref.(type) {
+		case *ssa.DebugRef:
+		case *ssa.Field:
+			if pointerWritten(x, 0, map[ssa.Value]bool{}) {
+				return true
+			}
+		case *ssa.Store:
+			al, ok := x.Addr.(*ssa.Alloc)
+			if !ok || x.Val != ssa.Value(p) || al.Referrers() == nil {
+				return true
+			}
+			for _, r2 := range *al.Referrers() {
+				switch y := r2.(type) {
+				case *ssa.Store, *ssa.DebugRef:
+				case *ssa.FieldAddr:
+					for _, r3 := range *y.Referrers() {
+						ld, isLd := r3.(*ssa.UnOp)
+						if !isLd {
+							return true
+						}
+						if pointerWritten(ld, 0, map[ssa.Value]bool{}) {
+							return true
+						}
+					}
+				default:
+					return true
+				}
+			}
+		default:
+			return true
+		}
+	}
+	return false
+}
+
 // freeVarBinding finds what a closure's free variable is bound to in the parent function.
 func (m *Model) freeVarBinding(fv *ssa.FreeVar, fr *frame) (ssa.Value, *frame) {
 	clos := fv.Parent()
 	parent := clos.Parent()
 	if parent == nil {
+		// the synthetic wrapper of a bound method value (x.m): bound where the value is created
+		if strings.HasSuffix(clos.Name(), "$bound") && len(clos.FreeVars) == 1 {
+			var site *ssa.MakeClosure
+			n := 0
+			for _, g := range m.Funcs {
+				for _, b := range g.Blocks {
+					for _, in := range b.Instrs {
+						if mc, ok := in.(*ssa.MakeClosure); ok && mc.Fn == clos {
+							site = mc
+							n++
+						}
+					}
+				}
+			}
+			if n == 1 {
+				return site.Bindings[0], m.closureFrame(site.Parent())
+			}
+		}
 		return nil, nil
 	}
 	idx := -1
@@ -729,7 +869,7 @@ func pointerWritten(p ssa.Value, depth int, seen map[ssa.Value]bool) bool {
 				if cellPointerWritten(al, depth, seen) {
 					return true
 				}
-			} else {
+			} else if !storedIntoReadOnlyWrapper(r) && !storedIntoReadOnlyField(r) {
 				return true
 			}
 		case *ssa.UnOp: // load through the pointer: a read
